@@ -1125,7 +1125,8 @@ impl<'a, 'b, 'ast> Visit<'ast> for Collector<'a, 'b> {
                             if c.inputs.len() == 1 {
                                 let pat = &c.inputs[0];
                                 let pr = pat.span().byte_range();
-                                bind = format!("let {} = __p; ", &rw.src[pr.clone()]);
+                                let (dp, db) = deref_pats(&rw.src[pr.clone()]);
+                                bind = format!("let {} = __p; {}", dp, db);
                                 self.edits.push((pr.start, pr.end, pt.trim().to_string()));
                             }
                         }
